@@ -151,6 +151,16 @@ def theorems_of(module):
     return [prefix + m for m in re.findall(r"^theorem\s+(C\d\d_\w+)", code, re.M)]
 
 
+def aux_theorems_of(module):
+    """Every theorem of a helper module listed in `modules` that has no property theorems of its own
+    (the translator agreement lemmas, H3.Lemmas.GenAgree*): audited for axioms, not counted as obligations."""
+    path = os.path.join(LEAN, *module.split(".")) + ".lean"
+    code = strip_comments(open(path).read())
+    ns = re.search(r"^namespace\s+(\S+)", code, re.M)
+    prefix = ns.group(1) + "." if ns else ""
+    return [prefix + m for m in re.findall(r"^theorem\s+([A-Za-z_][\w.']*)", code, re.M)]
+
+
 def print_axioms(module, names):
     """Returns {name: [axioms]} or None when the file does not elaborate."""
     tmp = os.path.join(WORK, "axioms_%s.lean" % module.replace(".", "_"))
@@ -499,14 +509,15 @@ def run_check(prop, tier, seed):
         if not okm:
             broken.append("theorem-module %s does not build: %s" % (m, _first_error(log)))
             continue
-        ax, raw = print_axioms(m, names)
-        checker_cmds.append("lake env lean <#print axioms of %d theorems of %s>" % (len(names), m))
-        for n in names:
+        aux = [] if names else aux_theorems_of(m)
+        ax, raw = print_axioms(m, names + aux)
+        checker_cmds.append("lake env lean <#print axioms of %d theorems of %s>" % (len(names) + len(aux), m))
+        for n in names + aux:
             if n not in ax:
                 broken.append("theorem %s: no #print axioms output" % n)
             elif not set(ax[n]) <= ALLOWED_AXIOMS:
                 broken.append("theorem %s depends on axioms %s" % (n, ax[n]))
-            else:
+            elif n in names:
                 discharged.append(n)
         if tier == "thorough":
             okc, logc = leanchecker(m)
